@@ -8,3 +8,4 @@ import Gomjml.Props.C05
 #print axioms Gomjml.Props.C05.C05_random_id_callers
 #print axioms Gomjml.Props.C05.C05_font_imports
 #print axioms Gomjml.Props.C05.C05_normalize_color
+#print axioms Gomjml.Props.C05.C05_font_imports_stable
